@@ -13,6 +13,7 @@ import (
 	"path/filepath"
 	"runtime"
 	"runtime/debug"
+	"runtime/pprof"
 	"sort"
 	"strconv"
 	"strings"
@@ -71,6 +72,11 @@ func worker() {
 	}
 	if mb := atoi(os.Getenv("VERIF_MEM_MB"), 0); mb > 0 {
 		debug.SetMemoryLimit(int64(mb) << 20)
+	}
+	if pf := os.Getenv("VERIF_PROF"); pf != "" {
+		f, _ := os.Create(pf)
+		pprof.StartCPUProfile(f)
+		defer pprof.StopCPUProfile()
 	}
 	t0 := time.Now()
 	func() {
@@ -185,8 +191,12 @@ func orchestrate() int {
 					fmt.Sprintf("VERIF_DEADLINE=%d", deadline.Unix()), fmt.Sprintf("VERIF_SEED=%d", seed),
 					"VERIF_SCRATCH="+filepath.Join(scratch, fmt.Sprintf("w%d", i)),
 					"GORACE=log_path="+filepath.Join(scratch, fmt.Sprintf("race%d", i))+" halt_on_error=0 exitcode=0 atexit_sleep_ms=0",
-					"GOMAXPROCS=2",
 				)
+				if p.Race {
+					cmd.Env = append(cmd.Env, "GOMAXPROCS=2")
+				} else {
+					cmd.Env = append(cmd.Env, "GOMAXPROCS=1") // channel hand-offs stay on one P: no futex wake-ups
+				}
 				if replay != nil {
 					cf := filepath.Join(scratch, "case.json")
 					os.WriteFile(cf, replay.Case, 0o644)
